@@ -675,7 +675,7 @@ class UnitBuild:
                         continue
                     seen.append(args)
                     ords = [char_ord(l) for l in lits]
-                    if len(ords) not in (3, 4, 5, 8) or max(ords) >= 64:
+                    if len(ords) not in (3, 4, 5, 7, 8) or max(ords) >= 64:
                         raise ExtractError('scsfacts: unsupported small_char_set!(%s)' % args)
                     o = ', '.join(str(x) for x in ords)
                     txt += 'assert(small_char_set!(%s).bits == scs%d(%s)); lemma_scs%d(%s);\n' % (args.strip(), len(ords), o, len(ords), o)
